@@ -707,7 +707,7 @@ def run(ctx):
     ctx.assumptions += [
         "Model/Scope.lean (resolver, compiler) and Model/ScopeMachine.lean are hand-written; their agreement with the Rust code is checked on the generated programs (access paths, capture lists, box instructions per function; program output), not proved",
         "the Spec interpreter (Model/ScopeSpec.lean) is the executable statement of the property for the fragment: integers and nil, let with and without initialiser/assign/lambda/fn/call/if/while/for-over-list/print/== (values of different kinds are unequal), lists of closures, try/catch of Error, classes with fields and methods; `return;` without a value is outside the fragment",
-        "generators stay outside the signatures of D1, D2 and of this property's finding D32 (closure over self inside init); for-iterables that mention an outer variable named like the item, directly or from a function literal (the shape of the repaired finding D31), are generated and judged by the Spec",
+        "generators stay outside the signatures of D1 and D2; closures over self inside init (repaired D27c/D32) are generated; for-iterables that mention an outer variable named like the item, directly or from a function literal (the shape of the repaired finding D31), are generated and judged by the Spec",
         "C02_env_simulation (Spec interpreter = machine on every accepted program) is stated, not proved; it is checked on every generated program",
     ]
 
